@@ -5242,6 +5242,21 @@ func (a *Agent) TaskDispatch(RequestID uint32, CommandID uint32, Parser *parser.
 									if teamserver.AgentExist(AgentHdr.AgentID) {
 
 										DemonInfo = teamserver.AgentInstance(AgentHdr.AgentID)
+
+										// the pivot graph must stay a forest: the child can be neither the sender itself nor one of its ancestors
+										IsAncestor := false
+										for Ancestor := a; Ancestor != nil; Ancestor = Ancestor.Pivots.Parent {
+											if Ancestor == DemonInfo {
+												IsAncestor = true
+												break
+											}
+										}
+										if IsAncestor {
+											Message["Type"] = "Error"
+											Message["Message"] = fmt.Sprintf("[SMB] Failed to connect: agent %x is the sender itself or one of its ancestors", AgentHdr.AgentID)
+											break
+										}
+
 										Message["MiscType"] = "reconnect"
 										Message["MiscData"] = fmt.Sprintf("%v;%x", a.NameID, AgentHdr.AgentID)
 
